@@ -19,6 +19,7 @@ def run(chk):
     chk.assume("effects inside dependency crates are not analysed; wall-clock bounds are not decided")
     chk.exhaustive = True
     batcher.send_rules(chk, P, "C09")
+    batcher.one_critical_section(chk, P, "C09")
     batcher.lossless_variants(chk, P, "C09")
     batcher.item_always_handed_on(chk, P, "C09")
     batcher.wait_closures(chk, P, "C09")
@@ -30,6 +31,8 @@ def run(chk):
     batcher.nothing_under_lock(chk, P, "C09")
     batcher.metrics_accounting(chk, P, "C09", ("emit_batcher", "emit_file", "emit_otlp"))
     if not getattr(chk, "_overlay", None):
+        from . import c12
+        c12.channel_metrics_wiring(chk, P, "C09.R6:channel-metrics-wiring")
         common.linear_types_rule(chk, P, "C09.R4:halves-are-linear", "the channel halves cannot be copied (dropping one copy would close the channel under the other)",
                                  {"emit_batcher::Sender": "Drop for Sender closes the channel: the first copy dropped stops the receiver while the others still send, "
                                                           "their items are discarded and a flush reports success at once",
